@@ -65,6 +65,12 @@ LAYOUTS = [
     # the unrelated file's name is a string prefix of the pattern file's path (README next to README.md)
     {"pfile": "README.md", "ufile": "README", "vp": "MAJOR.MINOR.PATCH", "cur": "1.2.3", "args": ["--patch"]},
     {"pfile": "src/pkg/version.py", "ufile": "src/pkg/ver", "vp": "MAJOR.MINOR.PATCH", "cur": "0.9.9", "args": ["--minor"]},
+    # a name with brackets (a route file `pages/[id].tsx`): read as a glob the key matches nothing and bumpver falls back
+    # to the literal path - spelled non-canonically it is still the same file
+    {"pfile": "pages/[id].tsx", "cfg_spelling": "./pages/[id].tsx", "ufile": "pages/index.tsx", "vp": "MAJOR.MINOR.PATCH",
+     "cur": "1.2.3", "args": ["--patch"]},
+    {"pfile": "n[1].txt", "cfg_spelling": "docs/../n[1].txt", "ufile": "docs/notes.md", "vp": "MAJOR.MINOR.PATCH", "cur": "1.2.3",
+     "args": ["--patch"], "extra_files": {"docs/keep.txt": "keep\n"}},
 ]
 
 
@@ -76,7 +82,7 @@ def cases(ctx):
             if rep > 0 and li != rep % len(LAYOUTS):
                 continue
             if rep == 0 and li in (1, 2) and ctx.quick:
-                # quick: the full product on layouts 0, 3..13; layouts 1, 2 only in thorough
+                # quick: the full product on layouts 0, 3..15; layouts 1, 2 only in thorough
                 continue
             for st in STATUSES:
                 for role in ROLES:
